@@ -332,6 +332,24 @@ def r3(ctx, rep):
             sides[show(n["lhs"])] = last_seg(show(n["rhs"]))
     rep.check(sides.get("opt_left.binary_position") == "Left" and sides.get("opt_right.binary_position") == "Right", "binary:sides",
               f"the left operand must be written with Position::Left and the right with Position::Right; found {sides}", file=wk[0]["file"], line=wk[0]["l"], fn=wk[0]["path"])
+    # the side is meaningful only for the expression it was set for: it must be cleared before that expression's own children
+    # are written (range ends, unary operands, call arguments ... do not set a side of their own)
+    ew = [x for x in syn.find_fns("<Expr as WriteSource>::write", crate="prqlc") if x["file"].endswith("codegen/ast.rs")]
+    if len(ew) != 1:
+        raise AnchorMissing("<Expr as WriteSource>::write in codegen/ast.rs")
+    seq = []
+    for n in sorted((n for n in walk(ew[0]["body"]) if n.get("k") in ("call", "assign", "mcall")), key=lambda n: (n["l"], n.get("c", 0))):
+        if n.get("k") == "call" and last_seg(show(n["f"])) == "needs_parenthesis":
+            seq.append("decide")
+        elif n.get("k") == "assign" and show(n["lhs"]) == "opt.binary_position" and last_seg(show(n["rhs"])) == "Unspecified":
+            seq.append("clear")
+        elif n.get("k") == "mcall" and n["m"] in ("write", "write_between") and show(n["r"]) == "self.kind":
+            seq.append("children")
+    first_children = seq.index("children") if "children" in seq else len(seq)
+    ok = "decide" in seq and "clear" in seq[:first_children] and seq.index("decide") < seq.index("clear")
+    rep.check(ok, "sides:not-inherited", f"Expr::write must decide about its own parentheses, then clear `opt.binary_position`, then write its kind (found order {seq}): otherwise the end of a range / "
+              "the operand of a unary inside the right operand of `*` is taken to be in the Right position itself and `x * (a..(b ** c))` loses its inner parentheses",
+              file=ew[0]["file"], line=ew[0]["l"], fn=ew[0]["path"])
     # can_bind_left covers the prefix operators that are also infix operators
     cb = syn.fn("codegen::ast::can_bind_left", crate="prqlc")
     got = set()
@@ -559,8 +577,72 @@ def r8(ctx, rep):
                     rep.ok(f"name:{f['path']}:{t}")
             if n.get("k") == "bin" and n["op"] == "+=" and show(n["rhs"]).lstrip("&").startswith("write_ident_part("):
                 rep.ok(f"name:{f['path']}:{show(n['rhs']).lstrip('&')}")
+            if n.get("k") == "bin" and n["op"] == "+=" and show(n["rhs"]).lstrip("&") in ("name", "alias", "ident_part", "field_name"):
+                rep.bad(f"raw-name:{f['path']}:{show(n['rhs']).lstrip('&')}", f"`{show(n)}` appends a name to the output without write_ident_part: a name that needs backticks is printed bare",
+                        file=f["file"], line=n["l"], fn=f["path"])
+
+
+def r9(ctx, rep):
+    rep.rule("C14.R9", "type syntax is printed the way the type parser reads it; optional parts of a declaration are printed whenever present; layout state has a fixed set of writers", floor=6)
+    syn = ctx.syn
+    # (a) tuple wildcard: the parser reads `..` followed by the type
+    tf = [x for x in syn.find_fns("<TyTupleField as WriteSource>::write", crate="prqlc")]
+    if len(tf) != 1:
+        raise AnchorMissing("<TyTupleField as WriteSource>::write")
+    fmts = [lit_val(m["a"][0]) for m in macros(tf[0]["body"], "format") if m.get("a")]
+    wild = [x for x in fmts if isinstance(x, str) and ".." in x]
+    rep.check(wild == ["..{}"], "type:wildcard", f"a tuple wildcard with a type is read as `..T` (Range token, then the type); it is printed with format {wild}", file=tf[0]["file"], line=tf[0]["l"], fn=tf[0]["path"])
+    # (b) VarDef: every arm that does not print the type annotation is unreachable when there is one
+    sw = [x for x in syn.find_fns("<Stmt as WriteSource>::write", crate="prqlc") if x["file"].endswith("codegen/ast.rs")]
+    if len(sw) != 1:
+        raise AnchorMissing("<Stmt as WriteSource>::write")
+    vm = None
+    for m in matches_of(sw[0]["body"]):
+        if show(m["e"]) == "var_def.kind":
+            vm = m
+    if vm is None:
+        raise AnchorMissing("Stmt::write: match var_def.kind")
+    covered = False
+    for i, arm in enumerate(vm["arms"]):
+        writes_ty = any(n.get("k") == "field" and n.get("f") == "ty" and show(n["e"]) == "var_def" for n in walk(arm["body"]))
+        g = arm.get("guard")
+        gt = show(g, maxdepth=8) if g is not None else None
+        if writes_ty:
+            if g is None or "var_def.ty.is_some()" in [show(x, maxdepth=6) for x in disj_of(g)]:
+                covered = True
+        else:
+            rep.check(covered, f"vardef:type-annotation:arm{i}", f"arm {i} of the VarDef writer (`{show(arm['pat'])}`{' if ' + gt if gt else ''}) does not print `var_def.ty` and can be reached when a type annotation is present: "
+                      "`let x <int> = 1` loses its annotation", file=sw[0]["file"], line=arm["l"], fn=sw[0]["path"])
+    # (c) layout state (`unbound_expr`, `context_strength`): the set of writers, by function and value
+    writers = set()
+    for f in syn.fns_in_file("codegen/ast.rs") + syn.fns_in_file("codegen/mod.rs") + syn.fns_in_file("codegen/types.rs"):
+        if "body" not in f or f["crate"] != "prqlc":
+            continue
+        for n in walk(f["body"]):
+            if n.get("k") == "assign" and show(n["lhs"]).split(".")[-1] in ("unbound_expr", "context_strength"):
+                writers.add((f["path"].split("::", 1)[1], show(n["lhs"]).split(".")[-1], show(n["rhs"], maxdepth=6)))
+    want = {("codegen::ast::write_within", "context_strength", "opt.context_strength.max(parent_strength)"),
+            ("codegen::ast::<Expr as WriteSource>::write", "unbound_expr", "false"),          # after `alias = `
+            ("codegen::ast::<ExprKind as WriteSource>::write", "unbound_expr", "true"),       # arguments of a function call
+            ("codegen::WriteSource::write_between", "context_strength", "0"),                 # inside brackets
+            ("codegen::WriteSource::write_between", "unbound_expr", "false")}
+    for w in sorted(writers - want):
+        rep.bad(f"layout-writer:{w[0]}:{w[1]}={w[2]}", f"{w[0]} sets `{w[1]} = {w[2]}`: this flag decides whether a leading unary operator needs parentheses (`f (-a) + b`) / which parentheses are dropped; "
+                "a new writer needs the same argument as the reviewed ones", file=None, line=None, fn=w[0])
+    for w in sorted(want - writers):
+        rep.bad(f"layout-writer-missing:{w[0]}:{w[1]}={w[2]}", f"the reviewed writer `{w[1]} = {w[2]}` in {w[0]} is gone")
+    for w in sorted(want & writers):
+        rep.ok(f"layout-writer:{w[0]}:{w[1]}={w[2]}")
+
+
+def disj_of(c):
+    if c is not None and c.get("k") == "bin" and c["op"] == "||":
+        return disj_of(c["lhs"]) + disj_of(c["rhs"])
+    if c is not None and c.get("k") == "paren":
+        return disj_of(c["e"])
+    return [c]
 
 
 def run(ctx, rep):
-    for r in (r1, r2, r3, r4, r5, r7, r8):
+    for r in (r1, r2, r3, r4, r5, r7, r8, r9):
         rep.guard(r, ctx)
